@@ -105,7 +105,7 @@ def dimension_values(ir):
         eo.append({'edge_order': {ri: tuple(reversed(range(len(rule[3])))) for ri, rule in enumerate(ir['rules'])}})
     dims['node_order'] = no
     dims['edge_order'] = eo
-    dims['ids'] = [{'ids': 'asc'}, {'ids': 'desc'}, {'ids': 'mixed'}]
+    dims['ids'] = [{'ids': 'asc'}, {'ids': 'desc'}, {'ids': 'mixed'}, {'ids': 'suffix'}]
     nls = sorted(ir['nl'])
     els = sorted(set(ir['term']) | set(ir['nt']))
     dims['labels'] = [{'nl_ren': {l: 'L%02d' % (50 - i) for i, l in enumerate(nls)}},
